@@ -112,6 +112,8 @@ def mk_doc(ctx: Ctx, allow: set[str]):
                                                  "opid_shapes": True, "ntags": 3,
                                                  "p_errors": 0.6, "p_error_stream": 0.35,
                                                  "p_multi_response_media": 0.2, "json_media_variants": True, "p_nullable_response": 0.2, "p_component_refs": 0.3, "p_range_2xx": 0.08})
+    if rng.random() < 0.3:
+        specgen.add_exotic_media_operations(rng, d)
     # tag spelling variants: rewrite some tags
     if rng.random() < 0.4:
         for path, item in d.doc["paths"].items():
